@@ -42,24 +42,29 @@ pub struct Sym {
 fn shard() -> Option<u16> {
     std::env::var("VERIF_SHARD").ok().and_then(|s| s.split('/').next().and_then(|i| i.parse::<u16>().ok()))
 }
+/// VERIF_LANE=0..7 moves every address this process binds to a disjoint range, so that two
+/// checks (say a long thorough run and a quick one) can run side by side
+pub fn lane() -> u16 {
+    std::env::var("VERIF_LANE").ok().and_then(|s| s.parse::<u16>().ok()).unwrap_or(0).min(7)
+}
 pub fn a4() -> SocketAddress {
     match shard() {
-        None => SocketAddress::new_v4(127, 0, 0, 1, 8080),
-        Some(s) => SocketAddress::new_v4(127, 10 + s as u8, 0, 1, 8080),
+        None => SocketAddress::new_v4(127, 0, 0, 1, 8080 + lane()),
+        Some(s) => SocketAddress::new_v4(127, (10 + lane() * 20 + s) as u8, 0, 1, 8080),
     }
 }
 pub fn a6() -> SocketAddress {
-    let port = 8443 + shard().unwrap_or(0);
+    let port = 8443 + lane() * 100 + shard().unwrap_or(0);
     format!("[::1]:{port}").parse::<std::net::SocketAddr>().unwrap().into()
 }
 pub fn b1() -> SocketAddress {
     match shard() {
-        None => SocketAddress::new_v4(127, 0, 0, 1, 1001),
-        Some(s) => SocketAddress::new_v4(127, 10 + s as u8, 0, 2, 1001),
+        None => SocketAddress::new_v4(127, 0, 0, 1, 1001 + lane() * 100),
+        Some(s) => SocketAddress::new_v4(127, (10 + lane() * 20 + s) as u8, 0, 2, 1001),
     }
 }
 pub fn b2() -> SocketAddress {
-    let port = 1002 + shard().unwrap_or(0);
+    let port = 1002 + lane() * 100 + shard().unwrap_or(0);
     format!("[::1]:{port}").parse::<std::net::SocketAddr>().unwrap().into()
 }
 
